@@ -8,7 +8,7 @@ import re
 import sys
 from pathlib import Path
 
-REPO = Path('/repo')
+REPO = Path(os.environ.get('VERIF_REPO', '/repo'))
 OUT = Path(os.environ.get('VERIF_ROOT', '/verif')) / 'build/bridge/Extracted.v'
 
 OST = {'PENDING': 'Pending', 'ASSIGNED': 'Assigned', 'RUNNING': 'Running',
